@@ -54,11 +54,11 @@ fn plan(prop: &str, tier: &str) -> (&'static str, u64) {
         "C03" => ("seq", if thorough { 150_000 } else { 8_000 }),
         "C02" => ("crash", if thorough { 20_000 } else { 1_200 }),
         "C11" => ("fault", if thorough { 6_000 } else { 320 }),
-        "C10" => ("long", if thorough { 1_600 } else { 160 }),
+        "C10" => ("long", if thorough { 6_000 } else { 1_600 }),
         "C16" => ("cfg", if thorough { 1_500 } else { 128 }),
         "C15" => ("compat", if thorough { 200_000 } else { 8_000 }),
         "C04" => ("shuttle", if thorough { 4_000_000 } else { 160_000 }),
-        "C09" => ("shuttle", if thorough { 2_000_000 } else { 80_000 }),
+        "C09" => ("shuttle", if thorough { 1_500_000 } else { 32_000 }),
         "C13" => ("shuttle", if thorough { 1_000_000 } else { 60_000 }),
         "C12" => ("corrupt", if thorough { 4_000 } else { 480 }),
         _ => ("none", 0),
